@@ -39,7 +39,11 @@ CL = {2901: 'output naming accepted / refused against the rule', 2902: 'keys of 
       2913: 'outputs missing after a complete on-the-fly run',
       2914: 'recorded configuration is not the on-the-fly one',
       2915: 'on-the-fly result differs from the three stages run one by one',
-      2916: 'an absolute path of the run appears in a cloud-safe output'}
+      2916: 'an absolute path of the run appears in a cloud-safe output',
+      2921: 'the validation runner failed on a file it must accept',
+      2922: 'the valid file is not the one the rule names (written / copy of the input / the input)',
+      2923: 'cells, genes or matrix of the valid file are not the expected ones',
+      2924: 'recorded number of mapped genes differs'}
 RESTS = {1: '.h5', 2: '.wmb.v2.h5', 3: '', 9: '.zzz'}
 PATHS = {1: ('in1', 'precomputed_stats'), 2: ('in2', 'precomputed_stats'), 3: ('in1', 'other'), 4: ('in2', 's')}
 
@@ -270,6 +274,82 @@ def _pipeline_case(args):
         shutil.rmtree(d, ignore_errors=True)
 
 
+def _validate_case(args):
+    """a history of validations through ValidateH5adRunner: the valid file of one is the input of the next"""
+    scn, wd = args
+    import anndata
+    import numpy as np
+    import pandas as pd
+    import scipy.sparse as sp
+    from harness import argshim
+    argshim.install()
+    from cell_type_mapper.cli.validate_h5ad import ValidateH5adRunner
+    d = pathlib.Path(tempfile.mkdtemp(dir=wd))
+    rng = random.Random(scn['seed'])
+    try:
+        ens = ['ENSMUSG00000051951', 'ENSMUSG00000025900', 'ENSMUSG00000025902', 'ENSMUSG00000033845']
+        sym = ['Xkr4', 'Rp1', 'Sox17', 'not_a_gene']
+        names = ens if scn['fixed'] else sym
+        nmapped = 4 if scn['fixed'] else 3
+        X = np.array([[rng.choice([0, 0, 1, 3, 25]) for _ in range(4)] for _ in range(5)], dtype=float)
+        X[0, 0] = 30.0
+        enc = rng.choice(['csr', 'csc', 'dense'])
+        M = sp.csr_matrix(X) if enc == 'csr' else sp.csc_matrix(X) if enc == 'csc' else X
+        obs = pd.DataFrame({'note': [f'n{i}' for i in range(5)]}, index=pd.Index([f'c{i}' for i in range(5)], name='cell_id'))
+        with warnings.catch_warnings(), _quiet():
+            warnings.simplefilter('ignore')
+            anndata.AnnData(X=M, obs=obs, var=pd.DataFrame(index=pd.Index(names, name='gene'))).write_h5ad(d / 'input.h5ad')
+            cur = d / 'input.h5ad'
+            steps = []
+            want_var = None
+            for i, st in enumerate(scn['steps']):
+                cfg = {'h5ad_path': str(cur), 'output_json': str(d / f'manifest_{i}.json'), 'tmp_dir': str(d),
+                       'log_path': str(d / f'log_{i}.txt')}
+                if st['dest'] == 'valid_path':
+                    cfg['valid_h5ad_path'] = str(d / f'valid_{i}.h5ad')
+                else:
+                    (d / f'out_{i}').mkdir()
+                    cfg['output_dir'] = str(d / f'out_{i}')
+                ev = {'dest': st['dest'], 'ok': True, 'vkind': 'none', 'same': False, 'rec': -1}
+                try:
+                    ValidateH5adRunner(args=[], input_data=cfg).run()
+                except Exception as e:                    # noqa
+                    ev['ok'] = False
+                    ev['error'] = f'{type(e).__name__}: {str(e)[:160]}'
+                    steps.append(ev)
+                    break
+                vp = pathlib.Path(json.load(open(d / f'manifest_{i}.json'))['valid_h5ad_path'])
+                a_in = anndata.read_h5ad(cur)
+                a = anndata.read_h5ad(vp)
+                if vp.resolve() == cur.resolve():
+                    ev['vkind'] = 'input'
+                elif st['dest'] == 'output_dir':
+                    ev['vkind'] = 'written' if vp.parent.resolve() == (d / f'out_{i}').resolve() else 'elsewhere'
+                else:
+                    if vp.resolve() != (d / f'valid_{i}.h5ad').resolve():
+                        ev['vkind'] = 'elsewhere'
+                    else:
+                        ev['vkind'] = 'copy' if list(a.var.index) == list(a_in.var.index) else 'written'
+                got = list(a.var.index)
+                if want_var is None:
+                    ok_names = (got[:3] == ens[:3] and (got[3] == ens[3] if scn['fixed'] else
+                                                        (got[3] not in sym and not got[3].startswith('ENS'))))
+                    want_var = got
+                else:
+                    ok_names = got == want_var
+                Xo = a.X.toarray() if hasattr(a.X, 'toarray') else np.asarray(a.X)
+                ev['same'] = bool(ok_names and list(a.obs.index) == list(obs.index) and list(a.obs['note']) == list(obs['note'])
+                                  and np.array_equal(np.asarray(Xo, dtype=float), X))
+                ev['rec'] = int(dict(a.uns).get('AIBS_CDM_n_mapped_genes', -1))
+                steps.append(ev)
+                cur = vp
+        return {'kind': 'validate', 'fixed': scn['fixed'], 'nmapped': nmapped, 'steps': steps, 'enc': enc}, None
+    except Exception:
+        return None, traceback.format_exc()
+    finally:
+        shutil.rmtree(d, ignore_errors=True)
+
+
 def run(ctx):
     quick = ctx.tier == 'quick'
     rng = random.Random(ctx.seed + 110)
@@ -340,13 +420,34 @@ def run(ctx):
                 owners.append({'pipeline_seed': job[0], 'quick': quick})
         ctx.part('pipelines', run=n, otf_runs=sum(1 for r in recs if r['kind'] == 'otf'),
                  completed=sum(1 for r in recs if r['kind'] == 'otf' and r['ok']))
+    if ctx.only in (None, 'validate'):
+        res = run_tlc('Runners_VMC', cfg_text='SPECIFICATION Spec\nCONSTANTS MaxRuns = %d NMapped = 2\nINVARIANT InvFixedPoint\n'
+                                              'INVARIANT InvRecordStable\nINVARIANT InvWrittenOnce\nINVARIANT InvRecordTrue\n'
+                                              'CONSTRAINT Emit\nCHECK_DEADLOCK FALSE\n' % (3 if quick else 4),
+                      workers=1, timeout=3600)
+        ctx.add_tlc('Runners_VMC', res)
+        if not res.ok:
+            raise MachineryError('Runners_VMC: ' + (res.error_trace or res.stdout[-1500:]))
+        hs = [json.loads(t[1]) for t in res.tuples('SCN')]
+        vscn = [dict(h, seed=rng.randint(0, 10 ** 6)) for h in hs for _ in range(1 if quick else 3)]
+        with cf.ProcessPoolExecutor(max_workers=8) as ex_:
+            outs = list(ex_.map(_validate_case, [(s, wd) for s in vscn]))
+        for s, (rec, err) in zip(vscn, outs):
+            if rec is None:
+                raise MachineryError(err)
+            ctx.count({'v': s}, nontrivial=True)
+            recs.append(rec)
+            owners.append({'validate': s})
+        ctx.part('validate', histories=len(vscn))
     # uniform records for TLC
     lines = []
     for r in recs:
         base = {'kind': r['kind'], 'inputs': r.get('inputs', []), 'clobber': r.get('clobber', False), 'dirOK': r.get('dirOK', True),
-                'existing': r.get('existing', []), 'ok': r['ok'], 'map': r.get('map', []), 'back': r.get('back', True),
+                'existing': r.get('existing', []), 'ok': r.get('ok', True), 'map': r.get('map', []), 'back': r.get('back', True),
                 'failat': r.get('failat', 'none'), 'left': r.get('left', []), 'outputs': r.get('outputs', []),
-                'config': r.get('config', 'none'), 'same': r.get('same', True), 'clean': r.get('clean', True), 'events': [0]}
+                'config': r.get('config', 'none'), 'same': r.get('same', True), 'clean': r.get('clean', True), 'events': [0],
+                'fixed': r.get('fixed', False), 'nmapped': r.get('nmapped', 0),
+                'steps': [{k: st[k] for k in ('dest', 'ok', 'vkind', 'same', 'rec')} for st in r.get('steps', [])]}
         lines.append(base)
     vs = validate(ctx, 'Runners_Trace', lines, 'Runners_Trace', cfg='Runners_Trace.cfg')
     rej = 0
@@ -382,6 +483,11 @@ def replay(ctx, path):
     wd = str(ctx.tmpdir('x10_'))
     if 'names' in case:
         rec, err = _names_case((case['names'], wd))
+        if rec is None:
+            raise MachineryError(err)
+        print(json.dumps(rec)[:1500])
+    elif 'validate' in case:
+        rec, err = _validate_case((case['validate'], wd))
         if rec is None:
             raise MachineryError(err)
         print(json.dumps(rec)[:1500])
